@@ -3,6 +3,7 @@ import signal
 
 from simkit.core import Result, h64
 from simkit.kernel import Sim, current_task
+from simkit import preempt
 from worlds import master
 
 ID = "C14"
@@ -49,7 +50,7 @@ def make_case(index, rng, tier):
         tc += rng.uniform(0.2, 0.9)
     return {"events": evs, "clients": clients, "unix": rng.randrange(2) == 0, "workers": rng.randrange(1, 3),
             "graceful_timeout": rng.choice([1, 2]), "daemon": rng.randrange(3) == 0,
-            "buggify": {"fork_child_first": rng.randrange(2) == 0, "spurious_select": rng.randrange(3) == 0,
+            "buggify": {"pyticks": rng.randrange(3) == 0, "fork_child_first": rng.randrange(2) == 0, "spurious_select": rng.randrange(3) == 0,
                         "random_spawn_delay": rng.randrange(2) == 0}}
 
 
@@ -57,6 +58,9 @@ def run(case, choices):
     res = Result()
     sim = Sim(choices, max_steps=250000, max_time=200.0)
     sim.buggify = dict(case["buggify"])
+    if case["buggify"].get("pyticks"):
+        preempt.enable()
+        sim.py_ticks = True          # eval-breaker points inside gunicorn's Python code are delivery / pre-emption points too
     gt = case["graceful_timeout"]
     bind = "unix:/run/g.sock" if case["unix"] else "127.0.0.1:8000"
     cfg = {"workers": case["workers"], "timeout": 30, "graceful_timeout": gt, "bind": [bind], "proc_name": "m0",
